@@ -148,7 +148,7 @@ def _check_persist(H, p, model, hist, res, err):
 
 
 @contract(
-    "link_states_persist", ["C08"], kind="bounded",
+    "link_states_persist", ["C08", "C07"], kind="bounded",
     targets=["rv.project:Project.chunks", "rv.readers.module:ModuleReader.process_SLNK", "rv.readers.module:ModuleReader.process_SLnK",
              "rv.readers.sunvox:SunVoxReader.process_end_of_file"],
     bound="every link state reached by single-pair connect/disconnect histories up to depth 3 (quick) / 4 (thorough) on output + 3 modules (fan-in, fan-out, cycles, links to the output, freed slots in the middle); slot chunk kept / dropped for all / dropped for some modules; native evaluation",
